@@ -125,6 +125,7 @@ class Executor:
     def __init__(s, mod, cfg=None):
         s.mod = mod; s.cfg = cfg or {}
         s.solver = z3.Solver()
+        s.solver.set(timeout=int(s.cfg.get('query_timeout_s', 20) * 1000))
         s.solver_stack = []   # ids of expressions asserted, one scope each
         s.stats = dict(paths=0, queries=0, queries_unsat=0, solver_s=0.0, forks=0, steps=0, asserts_checked=0,
                        infeasible=0, bound_hits=0, max_path_steps=0)
@@ -181,8 +182,19 @@ class Executor:
         r = s.solver.check()
         m = s.solver.model() if (r == z3.sat and want_model) else None
         s.solver.pop()
+        if r == z3.unknown:
+            # second attempt: fresh non-incremental solver with the full QF_(A)BV preprocessing pipeline
+            s.stats['fallback_queries'] = s.stats.get('fallback_queries', 0) + 1
+            try: f = z3.SolverFor('QF_ABV')
+            except Exception: f = z3.Solver()
+            f.set(timeout=int(s.cfg.get('fallback_timeout_s', 300) * 1000))
+            for c in st.pc: f.add(c)
+            for c in extra: f.add(c)
+            r = f.check()
+            m = f.model() if (r == z3.sat and want_model) else None
+            why = f.reason_unknown() if r == z3.unknown else ''
         s.stats['queries'] += 1; s.stats['solver_s'] += time.time() - t0
-        if r == z3.unknown: raise Unsupported("solver returned unknown: " + s.solver.reason_unknown())
+        if r == z3.unknown: raise Unsupported("solver returned unknown: " + why)
         if r == z3.unsat: s.stats['queries_unsat'] += 1
         if s.deadline and time.time() > s.deadline: raise Unsupported("obligation time budget exceeded")
         return (r == z3.sat), m
@@ -491,9 +503,8 @@ class Executor:
         if g[0] == 'alias': raise Unsupported("alias global " + name)
         kind, ty, init = g
         r, addr = s.new_region(st, max(sizeof(s.mod, ty), 1), 'const' if kind == 'constant' else 'global', name)
-        r.pin = None
+        r.pin = (lambda off: 0)     # zero-initialised unless the initialiser says otherwise
         s.globals_addr[name] = addr
-        for i in range(r.size): r.mem[i] = 0
         if init is not None:
             fl = []; flatten_init(s.mod, init, 0, fl)
             for off, v in fl:
@@ -1129,6 +1140,18 @@ class Executor:
                     return done(st, fr, simp(r))
                 raise Unsupported("symbolic " + name)
             return run
+        m = re.match(r'llvm\.(uadd|usub)\.sat\.i(\d+)', name)
+        if m:
+            k, n = m.group(1), int(m.group(2)); M = (1 << n) - 1
+            def run(st, fr, work):
+                a, b = args[0](st, fr), args[1](st, fr)
+                if isinstance(a, int) and isinstance(b, int):
+                    return done(st, fr, (min(a + b, M) if k == 'uadd' else max(a - b, 0)))
+                A, B = bv(a, n), bv(b, n)
+                if k == 'usub': r = z3.If(z3.UGT(A, B), A - B, z3.BitVecVal(0, n))
+                else: r = z3.If(z3.ULT(A + B, A), z3.BitVecVal(M, n), A + B)
+                done(st, fr, simp(r))
+            return run
         m = re.match(r'llvm\.(uadd|usub|umul|sadd|ssub|smul)\.with\.overflow\.i(\d+)', name)
         if m:
             k, n = m.group(1), int(m.group(2))
@@ -1236,10 +1259,10 @@ class Executor:
         if not isinstance(bytes_, int): bytes_ = simp(bytes_)
         if not isinstance(bytes_, int):
             # block sizes must stay inside their 2^24 window
-            lim = s.cfg.get('max_block', 1 << 22)
+            lim = s.cfg.get('max_block', 1 << 23)
             ok, _ = s.sat(st, [z3.UGT(bytes_, lim)])
             if ok: s.violation(st, 'BOUNDS', f'allocation request may exceed {lim} bytes (size arithmetic wrapped or bound too small)')
-        elif bytes_ > (1 << 22): s.violation(st, 'BOUNDS', f'allocation request of {bytes_} bytes (size arithmetic wrapped?)')
+        elif bytes_ > (1 << 23): s.violation(st, 'BOUNDS', f'allocation request of {bytes_} bytes (size arithmetic wrapped?)')
         mode = s.slack_mode
         if s.pinned is not None: choices = [align if mode != 'zero' else 0]
         elif mode == 'both': choices = [align, 0]
